@@ -90,7 +90,7 @@ func (b *dirBackend) close() {
 // Spellings of a local store path (Case.StorePath). The relative ones need the parent of the
 // store directory as working directory.
 var storePathSpellings = []string{"canonical", "trailing-slash", "double-slash", "dot", "dotdot", "relative", "relative-dot", "relative-trailing-slash",
-	"symlink", "symlink-trailing-slash", "symlink-in-path"}
+	"symlink", "symlink-trailing-slash", "symlink-in-path", "symlink-relative", "symlink-chain", "symlink-chain-relative", "symlink-chain-3"}
 
 // spellStorePath returns how the clean absolute directory dir is written, the working
 // directory that spelling needs ("" = any) and a function removing what it created (the
@@ -103,7 +103,8 @@ func spellStorePath(dir, spelling string) (spelled, cwd string, cleanup func()) 
 		if err := os.Symlink(target, p); err != nil {
 			infra("symlink %s: %v", p, err)
 		}
-		cleanup = func() { os.Remove(p) }
+		prev := cleanup
+		cleanup = func() { os.Remove(p); prev() }
 		return p
 	}
 	switch spelling {
@@ -111,6 +112,17 @@ func spellStorePath(dir, spelling string) (spelled, cwd string, cleanup func()) 
 		return link(base+".lnk", dir), "", cleanup
 	case "symlink-trailing-slash":
 		return link(base+".lnk", dir) + "/", "", cleanup
+	case "symlink-relative": // a link whose target is relative to the link's own directory
+		return link(base+".lnk", base), "", cleanup
+	case "symlink-chain": // link -> link -> store directory (a "current" link behind a stable name)
+		return link(base+".lnk", link(base+".cur", dir)), "", cleanup
+	case "symlink-chain-relative": // the same with relative targets
+		link(base+".cur", base)
+		return link(base+".lnk", base+".cur"), "", cleanup
+	case "symlink-chain-3": // three links, absolute and relative mixed
+		link(base+".a", base)
+		b := link(base+".b", filepath.Join(parent, base+".a"))
+		return link(base+".lnk", filepath.Base(b)) + "/", "", cleanup
 	case "symlink-in-path": // a symbolic link to the parent directory in the middle of the path
 		return link(base+".mid", parent) + "/" + base, "", cleanup
 	}
